@@ -1,24 +1,25 @@
 ------------------------------ MODULE Fsim_Gen ------------------------------
 (* Behaviour generation for C17: every maximal behaviour of Fsim.tla for the small constants is       *)
-(* printed with its scenario, the actions taken and the verdict (placed / failed).  checks/c17.py maps  *)
-(* a scenario (module, number of chunks, partial last chunk, corruption, which chunk, length delta       *)
-(* relative to the chunk) onto concrete file sizes, chunk sizes and MTUs.                                *)
+(* printed as a session: the module, MustDownload, and for every transfer of the session its scenario   *)
+(* (module, length, chunk, corruption, which chunk, length delta, HTTP server behaviour) with the        *)
+(* verdict of the specification (placed / failed, stalled).  checks/c17.py maps a scenario onto          *)
+(* concrete file sizes, chunk sizes, MTUs and HTTP responses.  Fsim_Gen.cfg: single transfers, dense;     *)
+(* Fsim_Gen_sess.cfg: sessions of up to three transfers through one module instance.                     *)
 EXTENDS Fsim, Json
 
-VARIABLE hist
+VARIABLE xs      \* the transfers of the session that have ended
 
-GenInit == Init /\ hist = <<>>
+GenInit == Init /\ xs = <<>>
 
-Act ==
-    CASE annLen' # annLen -> [a |-> "announce_len", len |-> annLen']
-      [] annDig' # annDig -> [a |-> "announce_dig", ok |-> annDig' = "src"]
-      [] nchunk' # nchunk -> [a |-> "data", n |-> rcvLen' - rcvLen, same |-> taint' = taint]
-      [] OTHER            -> [a |-> "end", result |-> result', dest |-> dest', stalled |-> rcvLen < annLen /\ sc.mod # "wget"]
+GenNext ==
+    /\ Next
+    /\ xs' = IF stage' = "end" /\ stage # "end"
+             THEN Append(xs, [sc |-> sc, expect |-> IF result' = "success" THEN "placed" ELSE "failed",
+                              stalled |-> stalled', nchunks |-> nchunk])
+             ELSE xs
 
-GenNext == Next /\ hist' = Append(hist, Act)
+GenSpec == GenInit /\ [][GenNext]_<<vars, xs>>
 
-GenSpec == GenInit /\ [][GenNext]_<<vars, hist>>
-
-Emit == stage = "end" =>
-    PrintT("BEHAVIOUR " \o ToJson([sc |-> sc, steps |-> hist, expect |-> IF result = "success" THEN "placed" ELSE "failed"]))
+Emit == sstage = "over" =>
+    PrintT("BEHAVIOUR " \o ToJson([sess |-> sess, xs |-> xs]))
 =============================================================================
